@@ -201,7 +201,7 @@ class Engine:
             I.inline_stack = [fname]
             I.app_seen = set()
             I.excluded = {}
-            I.merge_ifs = getattr(self, 'merge_ifs', False)
+            I.merge_ifs = getattr(self, 'merge_ifs', False) and fname.startswith('rsbdd::set::')
             I.alias_params = getattr(self, 'alias_params', None)
             try:
                 params = self.make_params(I, th, fninfo)
